@@ -3,6 +3,7 @@ package main
 import (
 	"fmt"
 	"html/template"
+	"sort"
 	"strconv"
 	"strings"
 	"time"
@@ -72,6 +73,14 @@ func (s c01Struct) GetS() string        { return s.S }
 func (s c01Struct) GetH() template.HTML { return s.H }
 func (s c01Struct) GetI() interface{}   { return s.I }
 
+// methods with parameters (a method call binds its arguments the same way a helper call does)
+func (s c01Struct) Echo(i interface{}) interface{}           { return i }
+func (s c01Struct) EchoS(x string) string                    { return x }
+func (s c01Struct) EchoH(h template.HTML) template.HTML      { return h }
+func (s c01Struct) EchoV(xs ...interface{}) interface{}      { return xs[len(xs)-1] }
+func (s *c01Struct) PEcho(i interface{}) interface{}         { return i }
+func (s c01Struct) EchoVH(xs ...template.HTML) template.HTML { return xs[len(xs)-1] }
+
 type c01Box struct{ V interface{} }
 type c01BoxS struct{ S string }
 type c01BoxH struct{ H template.HTML }
@@ -81,15 +90,31 @@ type c01Case struct {
 	Src  string
 	Ops  []string
 	Emit string
+	CT   string // "" (no contentType in the context) | html | js | jsc: see c01ContentTypes
 	Pay  string
 }
+
+// the contentType the context carries (Buffalo sets it for every render; partial() reads it)
+var c01ContentTypes = map[string]string{
+	"html": "text/html",
+	"js":   "application/javascript",
+	"jsc":  "text/javascript; charset=utf-8",
+}
+
+var c01CTs = []string{"", "html", "js", "jsc"}
+
+func c01IsJS(ct string) bool { return ct == "js" || ct == "jsc" }
 
 func (c c01Case) String() string {
 	ops := "-"
 	if len(c.Ops) > 0 {
 		ops = strings.Join(c.Ops, ".")
 	}
-	return "kind=" + c.Kind + " src=" + c.Src + " ops=" + ops + " emit=" + c.Emit + " pay=" + strconv.Quote(c.Pay)
+	ct := ""
+	if c.CT != "" {
+		ct = " ct=" + c.CT
+	}
+	return "kind=" + c.Kind + " src=" + c.Src + " ops=" + ops + " emit=" + c.Emit + ct + " pay=" + strconv.Quote(c.Pay)
 }
 
 func c01ParseCase(s string) (c01Case, error) {
@@ -115,6 +140,8 @@ func c01ParseCase(s string) (c01Case, error) {
 			c.Src = kv[1]
 		case "emit":
 			c.Emit = kv[1]
+		case "ct":
+			c.CT = kv[1]
 		case "ops":
 			if kv[1] != "-" && kv[1] != "" {
 				c.Ops = strings.Split(kv[1], ".")
@@ -141,17 +168,29 @@ var c01Ops = []c01Op{
 	{"let", "", 1}, {"asg", "", 1}, {"arr0", "", 1}, {"arr1", "", 1}, {"hash", "", 1}, {"hashq", "", 1},
 	{"ufnR", "", 1}, {"ufnT", "", 1}, {"ufn2", "", 1}, {"idi", "", 1}, {"box", "", 1}, {"boxc", "", 1}, {"pbox", "", 1},
 	{"mapi", "", 1}, {"ifaces0", "", 1},
+	// Go helpers / methods with other parameter shapes, any class: variadic (rest and fixed positions), trailing
+	// HelperContext, trailing options map + HelperContext, the value inside the options map, method arguments
+	{"vi", "", 1}, {"vi1", "", 1}, {"vfi0", "", 1}, {"vfi1", "", 1}, {"idihc", "", 1}, {"idiop", "", 1}, {"idiop2", "", 1}, {"optv", "", 1},
+	{"mecho", "", 1}, {"pmecho", "", 1}, {"mechov", "", 1},
 	// frames, any class
 	{"forv", "", 1}, {"forv2", "", 2}, {"forkv", "", 1}, {"forifc", "", 1}, {"ifT", "", 1}, {"ifE", "", 1}, {"ifEI", "", 1},
 	{"forN", "", 2}, {"ufnF", "", 1}, {"ufnF0", "", 1}, {"blk", "", 1}, {"blk2", "", 2}, {"blkw", "", 1},
 	{"cfor", "", 1}, {"cforD", "", 1}, {"cof", "", 1}, {"part", "", 1}, {"partL", "", 1}, {"partV", "", 1},
+	// partials whose name carries an extension (.js / .html), with a layout of the same / the other extension
+	{"partJ", "", 1}, {"partH", "", 1}, {"partLJ", "", 1}, {"partLH", "", 1}, {"partVJ", "", 1}, {"partJH", "", 1}, {"partJC", "", 1},
 	// Go-string only
 	{"catL", "S", 1}, {"catR", "S", 1}, {"catP", "S", 1}, {"ids", "S", 1}, {"strs0", "S", 1}, {"boxs", "S", 1},
 	{"forstrs", "S", 1}, {"maps", "S", 1}, {"raw", "S", 1},
+	{"vs", "S", 1}, {"vfs0", "S", 1}, {"mechos", "S", 1}, {"idshc", "S", 1},
+	// a Go string handed to a helper / method whose parameter is typed as trusted HTML (template.HTML, ...template.HTML,
+	// HTMLer): the string was never typed as trusted, so if the call is accepted at all whatever it yields from that
+	// string is still string data (refusing the call, as plush does today, is a render error: tagged, not reported)
+	{"sidh", "S", 1}, {"svh", "S", 1}, {"svh1", "S", 1}, {"svfh0", "S", 1}, {"svfh1", "S", 1}, {"smechoh", "S", 1}, {"smechovh", "S", 1},
+	{"shtmls0", "S", 1}, {"sboxh", "S", 1}, {"smaph", "S", 1}, {"sidx", "S", 1}, {"sidhhc", "S", 1}, {"sforhtmls", "S", 1},
 	// Go string as the LEFT operand of + with a right operand of every other kind: the result is a new Go
 	// string (never trusted), whatever was joined onto it
 	{"catH", "S", 1}, {"catRw", "S", 1}, {"catHf", "S", 1}, {"catHi", "S", 1}, {"catX", "S", 1}, {"catCof", "S", 1},
-	{"catPart", "S", 1}, {"catBlk", "S", 1}, {"catUf", "S", 1}, {"catInt", "S", 1}, {"catFlt", "S", 1}, {"catBool", "S", 1}, {"catArr", "S", 1},
+	{"catPart", "S", 1}, {"catPartJ", "S", 1}, {"catBlk", "S", 1}, {"catUf", "S", 1}, {"catInt", "S", 1}, {"catFlt", "S", 1}, {"catBool", "S", 1}, {"catArr", "S", 1},
 	// Go string as the RIGHT operand of + under a trusted left operand (a render error today; if it ever
 	// renders, the string part is still a Go string)
 	{"hcat", "S", 1},
@@ -161,6 +200,29 @@ var c01Ops = []c01Op{
 	{"fzcat", "*", 1},
 	// template.HTML only
 	{"idh", "H", 1}, {"htmls0", "H", 1}, {"boxh", "H", 1}, {"forhtmls", "H", 1}, {"maph", "H", 1},
+	{"vh", "H", 1}, {"vfh0", "H", 1}, {"mechoh", "H", 1}, {"idhhc", "H", 1},
+}
+
+// class of the value after a step, where it differs from the class before it
+var c01OpOut = map[string]string{
+	"ufnT": "W", "raw": "H", "hcat": "W",
+	"sidh": "W", "svh": "W", "svh1": "W", "svfh0": "W", "svfh1": "W", "smechoh": "W", "smechovh": "W",
+	"shtmls0": "W", "sboxh": "W", "smaph": "W", "sidx": "W", "sidhhc": "W", "sforhtmls": "W",
+}
+
+// steps that bind a Go string to a parameter typed as trusted HTML
+var c01Promotes = func() map[string]bool {
+	m := map[string]bool{}
+	for k := range c01OpOut {
+		if strings.HasPrefix(k, "s") {
+			m[k] = true
+		}
+	}
+	return m
+}()
+
+func c01IsPartialOp(name string) bool {
+	return strings.HasPrefix(name, "part") || strings.HasPrefix(name, "catPart")
 }
 
 var c01OpByName = func() map[string]c01Op {
@@ -266,6 +328,7 @@ type c01Built struct {
 	count    int
 	verbatim bool
 	open     bool // the payload's wanted form is left open by the statement (class U); only the fillers are checked
+	jsopen   bool // a partial with a non-.js extension under a javascript contentType: plush JS-escapes its text; left open
 }
 
 type c01Builder struct {
@@ -275,6 +338,29 @@ type c01Builder struct {
 	bad      string
 	finalCls string
 	open     bool
+	jsopen   bool
+	jsData   int // > 0 while building the body of a partial that was handed a javascript contentType as data
+}
+
+// jsEsc notes that a partial named with extension ext is rendered: under a javascript contentType plush
+// JS-escapes the text of partials whose extension is neither empty nor .js; the statement says nothing about that form.
+func (b *c01Builder) jsEsc(ext string) {
+	if (c01IsJS(b.c.CT) || b.jsData > 0) && ext != "" && ext != ".js" {
+		b.jsopen = true
+	}
+}
+
+// partial writes one partial(...) step: the partial is stored under name p<n><ext>, optionally inside a layout lay<lext>.
+func (b *c01Builder) partial(i int, cls, e, ext, layout, lext string) string {
+	n := strconv.Itoa(i)
+	b.jsEsc(ext)
+	b.partials["p"+n+ext] = "(" + b.build(i+1, "d"+n, cls) + ")"
+	if layout == "" {
+		return `<%= partial("p` + n + ext + `", {d` + n + ": " + e + "}) %>"
+	}
+	b.jsEsc(lext)
+	b.partials[layout+lext] = "L[<%= yield %>]"
+	return `<%= partial("p` + n + ext + `", {d` + n + ": " + e + `, layout: "` + layout + lext + `"}) %>`
 }
 
 func (b *c01Builder) emit(e, cls string) string {
@@ -379,6 +465,91 @@ func (b *c01Builder) build(i int, e, cls string) string {
 		return next("mapi(" + e + `)["k"]`)
 	case "ifaces0":
 		return next("ifaces(" + e + ")[0]")
+	case "vi":
+		return next("vi(fz, fh, " + e + ")")
+	case "vi1":
+		return next("vi(" + e + ")")
+	case "vfi0":
+		return next("vfi0(" + e + ", fz)")
+	case "vfi1":
+		return next("vfi1(fz, " + e + ")")
+	case "idihc":
+		return next("idihc(" + e + ")")
+	case "idiop":
+		return next("idiop(" + e + ")")
+	case "idiop2":
+		return next("idiop(" + e + ", {o: fz})")
+	case "optv":
+		return next("optv({v: " + e + ", o: fz})")
+	case "mecho":
+		return next("st.Echo(" + e + ")")
+	case "pmecho":
+		return next("sp.PEcho(" + e + ")")
+	case "mechov":
+		return next("st.EchoV(fz, " + e + ")")
+	case "partJ":
+		return b.partial(i, cls, e, ".js", "", "")
+	case "partH":
+		return b.partial(i, cls, e, ".html", "", "")
+	case "partLJ":
+		return b.partial(i, cls, e, ".js", "lay", ".js")
+	case "partLH":
+		return b.partial(i, cls, e, ".html", "lay", ".html")
+	case "partJH": // .js partial inside an .html layout
+		return b.partial(i, cls, e, ".js", "lay", ".html")
+	case "partJC": // the contentType arrives with the partial's data instead of the context
+		b.jsData++ // everything rendered inside this partial sees the javascript contentType
+		b.partials["p"+n+".js"] = "(" + next("d"+n) + ")"
+		b.jsData--
+		return `<%= partial("p` + n + `.js", {d` + n + ": " + e + `, contentType: "application/javascript"}) %>`
+	case "partVJ":
+		b.partials["p"+n+".js"] = "(" + next("v"+n) + ")"
+		return "<% let v" + n + " = " + e + ` %><%= partial("p` + n + `.js") %>`
+	case "vs":
+		return next(`vs("z", ` + e + ")")
+	case "vfs0":
+		return next("vfs0(" + e + `, "z")`)
+	case "mechos":
+		return next("st.EchoS(" + e + ")")
+	case "idshc":
+		return next("idshc(" + e + ")")
+	case "sidh":
+		return b.build(i+1, "idh("+e+")", "W")
+	case "svh":
+		return b.build(i+1, "vh(hz, "+e+")", "W")
+	case "svh1":
+		return b.build(i+1, "vh("+e+")", "W")
+	case "svfh0":
+		return b.build(i+1, "vfh0("+e+", hz)", "W")
+	case "svfh1":
+		return b.build(i+1, "vfh1(hz, "+e+")", "W")
+	case "smechoh":
+		return b.build(i+1, "st.EchoH("+e+")", "W")
+	case "smechovh":
+		return b.build(i+1, "st.EchoVH(hz, "+e+")", "W")
+	case "shtmls0":
+		return b.build(i+1, "htmls1("+e+")[0]", "W")
+	case "sboxh":
+		return "<% let b" + n + " = boxh(" + e + ") %>" + b.build(i+1, "b"+n+".H", "W")
+	case "smaph":
+		return b.build(i+1, "maph("+e+`)["k"]`, "W")
+	case "sidx":
+		return b.build(i+1, "idx("+e+")", "W")
+	case "sidhhc":
+		return b.build(i+1, "idhhc("+e+")", "W")
+	case "sforhtmls":
+		return "<%= for (v" + n + ") in htmls1(" + e + ") { %>" + b.build(i+1, "v"+n, "W") + "<% } %>"
+	case "catPartJ":
+		b.partials["q"+n+".js"] = `<u title='q'>q&amp;</u>`
+		return next("(" + e + ` + partial("q` + n + `.js"))`)
+	case "vh":
+		return next("vh(hz, " + e + ")")
+	case "vfh0":
+		return next("vfh0(" + e + ", hz)")
+	case "mechoh":
+		return next("st.EchoH(" + e + ")")
+	case "idhhc":
+		return next("idhhc(" + e + ")")
 	case "forv":
 		if b.restGeneric(i + 1) {
 			return "<%= for (v" + n + ") in [" + e + ", fz, fh] { %>" + next("v"+n) + "<% } %>"
@@ -523,7 +694,10 @@ func c01Build(c c01Case) (c01Built, string) {
 			return c01Built{}, "emit twice after a return-style user function is left to C16"
 		}
 	}
-	return c01Built{tmpl: t, partials: b.partials, count: b.count, verbatim: verb, open: b.open}, ""
+	if _, ok := c01ContentTypes[c.CT]; !ok && c.CT != "" {
+		return c01Built{}, "unknown ct " + c.CT
+	}
+	return c01Built{tmpl: t, partials: b.partials, count: b.count, verbatim: verb, open: b.open, jsopen: b.jsopen}, ""
 }
 
 // c01Env builds the Go environment of a case from its kind and payload.
@@ -572,6 +746,23 @@ func c01Env(c c01Case, partials map[string]string) *plush.Context {
 	ctx.Set("hx", c01HTMLer{string(c01TrustedZ)})
 	ctx.Set("gh", func() template.HTML { return c01TrustedZ })
 
+	if ct, ok := c01ContentTypes[c.CT]; ok {
+		ctx.Set("contentType", ct)
+	}
+	ctx.Set("vi", func(xs ...interface{}) interface{} { return xs[len(xs)-1] })
+	ctx.Set("vfi0", func(a interface{}, xs ...interface{}) interface{} { return a })
+	ctx.Set("vfi1", func(a interface{}, xs ...interface{}) interface{} { return xs[0] })
+	ctx.Set("vs", func(xs ...string) string { return xs[len(xs)-1] })
+	ctx.Set("vfs0", func(a string, xs ...string) string { return a })
+	ctx.Set("vh", func(xs ...template.HTML) template.HTML { return xs[len(xs)-1] })
+	ctx.Set("vfh0", func(a template.HTML, xs ...template.HTML) template.HTML { return a })
+	ctx.Set("vfh1", func(a template.HTML, xs ...template.HTML) template.HTML { return xs[0] })
+	ctx.Set("idihc", func(i interface{}, help plush.HelperContext) interface{} { return i })
+	ctx.Set("idshc", func(s string, help plush.HelperContext) string { return s })
+	ctx.Set("idhhc", func(h template.HTML, help plush.HelperContext) template.HTML { return h })
+	ctx.Set("idiop", func(i interface{}, opts map[string]interface{}, help plush.HelperContext) interface{} { return i })
+	ctx.Set("optv", func(opts map[string]interface{}, help plush.HelperContext) interface{} { return opts["v"] })
+	ctx.Set("idx", func(x plush.HTMLer) plush.HTMLer { return x })
 	ctx.Set("ids", func(s string) string { return s })
 	ctx.Set("idh", func(h template.HTML) template.HTML { return h })
 	ctx.Set("idi", func(i interface{}) interface{} { return i })
@@ -682,6 +873,7 @@ type c01Verdict struct {
 	problem string // "" = property holds on this case
 	what    string
 	emitted int
+	jsopen  bool
 }
 
 func c01Run(c c01Case) c01Verdict {
@@ -702,9 +894,17 @@ func c01Run(c c01Case) c01Verdict {
 	case "ERR":
 		return v
 	}
+	if bt.jsopen {
+		// the partial's text went through JSEscapeString: neither the payload's nor the fillers' form is stated
+		v.jsopen = true
+		return v
+	}
 	n, good, wrong, ctxt := c01Scan(o.Out, c.Pay, c01Mark, bt.verbatim)
 	v.emitted = n
 	tail := fmt.Sprintf(" (template %s, output %s)", strconv.Quote(bt.tmpl), strconv.Quote(c01Clip(o.Out, 300)))
+	if c.CT != "" {
+		tail = fmt.Sprintf(" (contentType %q, partials %v, template %s, output %s)", c01ContentTypes[c.CT], c01PartialList(bt.partials), strconv.Quote(bt.tmpl), strconv.Quote(c01Clip(o.Out, 300)))
+	}
 	if bt.open {
 		// string + trusted value: only the string operand (the filler) has a stated form
 	} else if !bt.verbatim {
@@ -751,6 +951,19 @@ func c01Run(c c01Case) c01Verdict {
 	return v
 }
 
+// c01PartialList lists the partials of a case in name order (for failure texts).
+func c01PartialList(m map[string]string) []string {
+	names := make([]string, 0, len(m))
+	for k := range m {
+		names = append(names, k)
+	}
+	sort.Strings(names)
+	for i, k := range names {
+		names[i] = k + "=" + strconv.Quote(m[k])
+	}
+	return names
+}
+
 func c01Clip(s string, n int) string {
 	if len(s) > n {
 		return s[:n] + "…"
@@ -774,6 +987,13 @@ func c01Shrink(c c01Case, problem string) c01Case {
 				c, changed = x, true
 				break
 			}
+		}
+	}
+	if c.CT != "" {
+		x := c
+		x.CT = ""
+		if same(x) {
+			c = x
 		}
 	}
 	for _, em := range []string{"tag", "arr"} {
@@ -867,14 +1087,14 @@ func c01RandOps(r *Rng, kind string, d int) ([]string, string) {
 		if op.need != "" && op.need != "*" && op.need != cls {
 			continue
 		}
+		if c01Promotes[op.name] && !r.Chance(25) {
+			continue // refused today (the whole chain is then a render error): drawn less often in random chains
+		}
 		ops = append(ops, op.name)
+		if out, ok := c01OpOut[op.name]; ok {
+			cls = out
+		}
 		switch op.name {
-		case "ufnT":
-			cls = "W"
-		case "raw":
-			cls = "H"
-		case "hcat":
-			cls = "W"
 		case "fzcat":
 			if cls == "S" {
 				cls = "G"
@@ -893,10 +1113,13 @@ func init() {
 			"typed and interface slices/maps, method, Go helper result, raw()) x ops(a chain of value-preserving plumbing steps: let, assignment, " +
 			"array/hash literal + index, user fn return/template body/2 params, Go helpers returning the value, struct boxes, for over literal/[]string/" +
 			"[]template.HTML/[]interface{}/map, if/else/else-if, fn frames, block helpers calling Block once/twice/BlockWith, contentFor/contentOf with and " +
-			"without data, contentOf block fallback, partial with data/layout/outer variable, string + string, string + every other operand kind " +
+			"without data, contentOf block fallback, partial with data/layout/outer variable and with .js/.html names and layouts and a contentType passed as data, " +
+			"Go helpers and methods binding the value to fixed / variadic / HelperContext / options-map parameters, " +
+			"a Go string bound to a template.HTML / ...template.HTML / HTMLer parameter (refused today; if accepted it is still string data), string + string, string + every other operand kind " +
 			"(template.HTML variable / raw() / Go func result / interface result / contentOf() / partial() / block helper result, HTMLer, user fn result, int, float, bool, array), " +
 			"trusted + string, string filler + routed value, raw()) x emit(tag, twice, if-return, for-return, " +
-			"array, []interface{}, []string, array + value, []string + string) x payload(marker + bytes over <>&'\" entities, multi-byte runes, invalid UTF-8, NUL, backslash, tag delimiters); " +
+			"array, []interface{}, []string, array + value, []string + string) x contentType of the context (none, text/html, two javascript ones; every one for chains with a partial step, 30% of the random chains) " +
+			"x payload(marker + bytes over <>&'\" entities, multi-byte runes, invalid UTF-8, NUL, backslash, tag delimiters); " +
 			"every kind x source x chain of length <= 1 x emit form, in thorough also every chain of length 2 (one drawn emit form each), " +
 			"then random chains of depth 2..3 (quick) / 2..5 (thorough); a string filler and a trusted filler with their own markers travel next to the payload " +
 			"through arrays, loops and slices and are checked the same way; " +
@@ -906,7 +1129,9 @@ func init() {
 			"string payloads: every located emission must equal template.HTMLEscapeString(payload); the number of emissions of a string is not checked (dropping a string is not a C01 matter), it is only tagged (str-count-ok / str-count-differs)",
 			"trusted payloads (template.HTML, HTMLer, raw()): verbatim occurrences must equal the number of emissions the route performs",
 			"string + trusted HTML: the string operand is a Go string and must come out escaped (payload on the left: cat* steps; string filler on the left of any routed value: fzcat); the form of the trusted right operand inside that result is left open and not checked",
-			"left open on purpose: whole slices/maps of types compiler.write has no case for ([]template.HTML, maps), fmt.Stringer / named string types, time formats, contentType=javascript partials",
+			"left open on purpose: whole slices/maps of types compiler.write has no case for ([]template.HTML, maps), fmt.Stringer / named string types, time formats, "+
+				"the text of a partial with a non-.js extension under a javascript contentType (plush JS-escapes it; such cases run for panics/hangs only, tag js-escaped-partial-open)",
+			"a Go string bound to a parameter typed template.HTML / HTMLer (s* steps) is a render error today; the statement's 'only values explicitly typed as trusted HTML' means that, were the call accepted, the value would still have to come out escaped",
 			"emit=twice after a user function that uses return is not generated: if the returned value ends the enclosing block (as plush's return object once did) the second tag legitimately never runs; that is C16's subject",
 			"render errors are tagged, not failures (C01 speaks about what an output tag emits); panics and hangs on these well-formed templates are reported",
 			"failing cases are shrunk (steps removed, source/emit/payload simplified) and the family id is the problem plus the shrunk route")
@@ -926,10 +1151,16 @@ func init() {
 			rep.Tag("depth-" + strconv.Itoa(len(c.Ops)))
 			rep.Tag("src-" + c.Src)
 			rep.Tag("emit-" + c.Emit)
+			if c.CT != "" {
+				rep.Tag("ct-" + c.CT)
+			}
+			if v.jsopen {
+				rep.Tag("js-escaped-partial-open")
+			}
 			for _, o := range c.Ops {
 				rep.Tag("op-" + o)
 			}
-			if v.o.Kind() == "OK" {
+			if v.o.Kind() == "OK" && !v.jsopen {
 				if v.emitted == 0 {
 					rep.Tag("payload-absent")
 				} else {
@@ -975,6 +1206,9 @@ func init() {
 				if c.Src != "var" {
 					site += c.Src + "/"
 				}
+				if c.CT != "" {
+					site += "ct-" + c.CT + "/"
+				}
 				site += ops + "/" + c.Emit
 			}
 			rep.Fail(Failure{Case: c.String(), Kind: kind, Site: site, What: v.what})
@@ -1013,16 +1247,35 @@ func init() {
 					if len(ch) == 2 {
 						emits = []string{Pick(r, c01Emits)}
 					}
-					for _, em := range emits {
-						c := c01Case{Kind: kind, Src: src, Ops: ch, Emit: em}
-						c.Pay = c01Payload(r, c01NeedsLiteral(src))
-						if _, bad := c01Build(c); bad != "" {
-							continue // step not applicable to the value class at that point
+					// the contentType of the context matters to partial(): chains with a partial step run under each
+					cts := c01CTs[:1]
+					for _, o := range ch {
+						if c01IsPartialOp(o) {
+							cts = c01CTs
 						}
-						if rep.Full() {
-							return []*Report{rep}
+					}
+					ctEmit := r.Intn(len(emits))
+					for ei, em := range emits {
+						for _, ct := range cts {
+							if ct != "" && len(ch) < 2 && em != "tag" && ei != ctEmit {
+								continue // under a contentType: the plain tag and one drawn emit form
+							}
+							c := c01Case{Kind: kind, Src: src, Ops: ch, Emit: em, CT: ct}
+							if len(ch) == 2 && len(cts) > 1 {
+								c.CT = Pick(r, c01CTs)
+							}
+							c.Pay = c01Payload(r, c01NeedsLiteral(src))
+							if _, bad := c01Build(c); bad != "" {
+								continue // step not applicable to the value class at that point
+							}
+							if rep.Full() {
+								return []*Report{rep}
+							}
+							record(c)
+							if len(ch) == 2 {
+								break
+							}
 						}
-						record(c)
 					}
 				}
 			}
@@ -1042,7 +1295,11 @@ func init() {
 			if (em == "strs" || em == "strsapp") && cls != "S" {
 				em = "tag"
 			}
-			c := c01Case{Kind: kind, Src: src, Ops: ops, Emit: em, Pay: c01Payload(r, c01NeedsLiteral(src))}
+			ct := ""
+			if r.Chance(30) {
+				ct = Pick(r, c01CTs[1:])
+			}
+			c := c01Case{Kind: kind, Src: src, Ops: ops, Emit: em, CT: ct, Pay: c01Payload(r, c01NeedsLiteral(src))}
 			if _, bad := c01Build(c); bad != "" {
 				c.Emit = "tag"
 			}
